@@ -437,7 +437,7 @@ func reachAvoidFrom(b *ssa.BasicBlock, start int, target, avoid func(ssa.Instruc
 		}
 	}
 	for _, s := range b.Succs {
-		if seen[s] {
+		if seen[s] || deadEdge(b, s) {
 			continue
 		}
 		seen[s] = true
@@ -454,6 +454,25 @@ func reachAvoidBlock(to *ssa.BasicBlock, target, avoid func(ssa.Instruction) boo
 }
 
 func isReturn(in ssa.Instruction) bool { _, ok := in.(*ssa.Return); return ok }
+
+// deadEdge: b ends in a branch on a constant (`if false && cond`, `if true || cond`: go/ssa keeps both successors) and s
+// is the successor that is never taken.
+func deadEdge(b, s *ssa.BasicBlock) bool {
+	if len(b.Instrs) == 0 || len(b.Succs) != 2 || b.Succs[0] == b.Succs[1] {
+		return false
+	}
+	iff, ok := b.Instrs[len(b.Instrs)-1].(*ssa.If)
+	if !ok {
+		return false
+	}
+	switch {
+	case isBoolConst(iff.Cond, true):
+		return s == b.Succs[1]
+	case isBoolConst(iff.Cond, false):
+		return s == b.Succs[0]
+	}
+	return false
+}
 
 func isCallTo(fn *ssa.Function) func(ssa.Instruction) bool {
 	return func(in ssa.Instruction) bool {
@@ -490,6 +509,9 @@ func cfgSearch(fl *Flow, from ssa.Instruction, startBlock *ssa.BasicBlock, targe
 			}
 		}
 		for _, s := range b.Succs {
+			if deadEdge(b, s) {
+				continue
+			}
 			if blocked != nil && edgeBlocked(fl, b, s, blocked, 0) {
 				continue
 			}
@@ -674,7 +696,7 @@ func reachAvoidFromPlain(b *ssa.BasicBlock, start int, target, avoid func(ssa.In
 		}
 	}
 	for _, s := range b.Succs {
-		if seen[s] {
+		if seen[s] || deadEdge(b, s) {
 			continue
 		}
 		seen[s] = true
@@ -690,7 +712,7 @@ func reachAvoidFromPlain(b *ssa.BasicBlock, start int, target, avoid func(ssa.In
 // package and, inside the helper, every path that delivers this verdict crosses a blocked
 // edge (facts re-expressed in the caller's terms).
 func edgeBlocked(fl *Flow, b, s *ssa.BasicBlock, blocked func([]Fact) bool, depth int) bool {
-	if blocked(fl.edgeFacts(b, s)) {
+	if deadEdge(b, s) || blocked(fl.edgeFacts(b, s)) {
 		return true
 	}
 	if depth > 2 || len(b.Instrs) == 0 {
